@@ -89,11 +89,13 @@ int main() { const int n = 4096; arr_real x(n); for (int i = 0; i < n; ++i) x[i]
 
 @adapter(r'dsplib::(issorted|sort|median|corr)|_kendall|_spearman|MedianFilter')
 def order_statistics(o):
-    """C16: sort returns a sorted permutation for every small input pattern (including 'sorted except for the last element'),
+    """C16: median equals the middle order statistic(s) and sort returns a sorted permutation for every small input pattern (including 'sorted except for the last element'),
     issorted agrees with the definition, Spearman/Kendall of x and -x are -1"""
     return '#include <algorithm>\n#include <vector>\n' + HDR + '''
-int main() { for (int n = 1; n <= 7; ++n) { std::vector<int> p(n); for (int i = 0; i < n; ++i) p[i] = i; 
-    do { arr_real x(n); for (int i = 0; i < n; ++i) x[i] = p[i] * 0.5 - 1; for (int asc = 0; asc < 2; ++asc) { auto dir = asc ? Direction::Ascend : Direction::Descend;
+int main() { for (int n = 1; n <= 8; ++n) { std::vector<int> p(n); for (int i = 0; i < n; ++i) p[i] = i; 
+    do { arr_real x(n); for (int i = 0; i < n; ++i) x[i] = p[i] * 0.5 - 1;
+      { const double med = (n % 2) ? (n / 2) * 0.5 - 1 : ((n / 2 - 1) * 0.5 - 1 + (n / 2) * 0.5 - 1) / 2; if (median(x) != med) { std::printf("median of a rearrangement of {-1, -0.5, .., %g}: %g, expected %g (first element %g)\\n", (n - 1) * 0.5 - 1, median(x), med, x[0]); return 1; } }
+      for (int asc = 0; asc < 2; ++asc) { auto dir = asc ? Direction::Ascend : Direction::Descend;
         bool srt = true; for (int i = 0; i + 1 < n; ++i) if (asc ? x[i] > x[i + 1] : x[i] < x[i + 1]) srt = false;
         if (issorted(x, dir) != srt) { std::printf("issorted: wrong answer for a length-%d pattern (last pair %g, %g)\\n", n, n > 1 ? x[n - 2] : 0.0, x[n - 1]); return 1; }
         auto r = sort(x, dir); for (int i = 0; i + 1 < n; ++i) if (asc ? r.first[i] > r.first[i + 1] : r.first[i] < r.first[i + 1]) { std::printf("sort: result not ordered at %d (length %d)\\n", i, n); return 1; }
@@ -167,3 +169,35 @@ int main() { const int L = 31; arr_cmplx h(L); for (int i = 0; i < L; ++i) { dou
   if (at != pos + L - 1 || std::fabs(sc - 1) > 0.05) { std::printf("after reset(), preamble ending at sample %d: reported at %d (-1: not at all) with score %g\\n", pos + L - 1, at, sc); return 1; }
   return 0; }
 '''
+
+
+@adapter(r'const-method-reaches-only-readers|no-mutable-member|statics\(lib/fft')
+def shared_plan_stress(o):
+    """C09: one plan object used by four threads at once through its const interface returns, for every thread, the transform
+    of that thread's own input (compared with results computed beforehand on one thread). A race shows with high probability,
+    not with certainty; without one the program cannot fail."""
+    return '#include <thread>\n#include <vector>\n#include <atomic>\n' + HDR + '''
+template<class Plan, class In> static int stress(const char* what, const Plan& plan, int n, In make) {
+  const int T = 4, R = 1500; std::vector<decltype(make(0))> in; std::vector<decltype(plan.solve(make(0)))> ref;
+  for (int t = 0; t < T; ++t) { in.push_back(make(t)); ref.push_back(plan.solve(in[t])); }
+  std::atomic<int> bad{0}; std::vector<std::thread> th;
+  for (int t = 0; t < T; ++t) th.emplace_back([&, t] { for (int r = 0; r < R; ++r) { auto y = plan.solve(in[t]); for (int k = 0; k < y.size(); ++k) if (y[k].re != ref[t][k].re || y[k].im != ref[t][k].im) { ++bad; break; } } });
+  for (auto& x : th) x.join();
+  if (bad) { std::printf("%s of size %d shared by %d threads: %d of %d concurrent calls returned something other than the transform of their own input\\n", what, n, T, int(bad), T * R); return 1; }
+  return 0; }
+int main() {
+  auto cin = [](int n) { return [n](int t) { arr_cmplx x(n); for (int i = 0; i < n; ++i) x[i] = cmplx_t{std::sin(0.3 * i + t), std::cos(0.7 * i * (t + 1))}; return x; }; };
+  auto rin = [](int n) { return [n](int t) { arr_real x(n); for (int i = 0; i < n; ++i) x[i] = std::sin(0.3 * i + t) + 0.1 * t; return x; }; };
+  for (int n : {101, 86, 64, 120, 37}) { FftPlan p(n); if (stress("FftPlan", p, n, cin(n))) return 1; }
+  for (int n : {101, 64}) { IfftPlan p(n); if (stress("IfftPlan", p, n, cin(n))) return 1; }
+  for (int n : {202, 101, 128}) { FftPlanR p(n); if (stress("FftPlanR", p, n, rin(n))) return 1; }
+  { const int n = 50; CztPlan p(n, n, expj(-2 * pi / n)); if (stress("CztPlan", p, n, cin(n))) return 1; }
+  return 0; }
+'''
+
+
+@adapter(r'CztPlanImpl|CztPlan::|czt\(')
+def chirp_z_definition(o):
+    """C01: czt(x, m, w, a) against its defining sum for small sizes, m != n, w off the DFT grid and |a| != 1"""
+    from contracts import standins
+    return '#include <complex>\n' + standins.CZT
